@@ -305,6 +305,12 @@ where
     let mut shift = -jac_inv * func_eval;
     guess += &shift;
 
+    // The first step can already have converged (a start on the root): the
+    // update below would then divide zero by zero
+    if shift.norm().abs() <= tol {
+        return Ok(guess);
+    }
+
     while n < n_max {
         let func_eval_last = func_eval;
         func_eval = func(guess.as_slice());
